@@ -445,6 +445,13 @@ def replay(path):
             fails = list(vector_copy_failures(cls, b))
         print(fails or 'no failure')
         ok = not fails
+    elif pred == 'observer-constructed':
+        fails = []
+        for obj in constructed_objects():
+            if sweep.qualname(type(obj)) == r['class']:
+                fails += list(observer_object_failures(obj, random.Random(0), 80))
+        print(fails or 'no failure')
+        ok = not fails
     else:
         print(json.dumps(r, indent=1)[:3000])
         ok = False
